@@ -701,10 +701,10 @@ impl Property for C06 {
     fn batches(&self, tier: Tier) -> Vec<Batch> {
         let q = tier == Tier::Quick;
         vec![
-            Batch { name: "twins-clf", count: if q { 4_000 } else { 500_000 }, simulated: true, exhaustive: false, note: "classifier twins: fit A under ambient stream alpha, pollution, fit B on a fresh thread under stream gamma" },
-            Batch { name: "twins-reg", count: if q { 4_000 } else { 500_000 }, simulated: true, exhaustive: false, note: "regressor twins, same protocol" },
-            Batch { name: "twins-extreme", count: if q { 2_000 } else { 250_000 }, simulated: true, exhaustive: false, note: "twin B's ambient RNG serves extreme words" },
-            Batch { name: "twins-none", count: if q { 2_000 } else { 250_000 }, simulated: true, exhaustive: false, note: "no simulator source installed for one or both twins (real OS-seeded ThreadRng)" },
+            Batch { name: "twins-clf", count: if q { 10_000 } else { 500_000 }, simulated: true, exhaustive: false, note: "classifier twins: fit A under ambient stream alpha, pollution, fit B on a fresh thread under stream gamma" },
+            Batch { name: "twins-reg", count: if q { 10_000 } else { 500_000 }, simulated: true, exhaustive: false, note: "regressor twins, same protocol" },
+            Batch { name: "twins-extreme", count: if q { 5_000 } else { 250_000 }, simulated: true, exhaustive: false, note: "twin B's ambient RNG serves extreme words" },
+            Batch { name: "twins-none", count: if q { 5_000 } else { 250_000 }, simulated: true, exhaustive: false, note: "no simulator source installed for one or both twins (real OS-seeded ThreadRng)" },
         ]
     }
     fn gen(&self, batch: &str, index: u64, seed: u64) -> Case {
